@@ -150,7 +150,8 @@ static int vw(vswpf f, wchar_t *d, size_t n, const wchar_t *fmt, ...) { va_list 
 static void g_printf(void) {
     static const char *names[4] = { "sprintf_s", "vsprintf_s", "snprintf_s", "vsnprintf_s" };
     void *fp[4]; for (int i = 0; i < 4; i++) { char s[64]; snprintf(s, sizeof s, "_%s_chk", names[i]); fp[i] = dlsym(L, s); if (!fp[i]) { fprintf(stderr, "missing %s\n", s); exit(2); } }
-    /* argument kinds: 0 none, 1 int, 2 char*, 3 wchar_t*, 4 wint_t, 5 double, 6 unterminated char[3] flush to guard, 7 NULL char*, 8 long double */
+    /* argument kinds: 0 none, 1 int, 2 char*, 3 wchar_t*, 4 wint_t, 5 double, 6 unterminated char[3] flush to guard, 7 NULL char*, 8 long double,
+       9 unterminated wchar_t[iv] flush to guard (a precision makes that legitimate: no more wide characters are needed than bytes are written) */
     struct { const char *fmt; int ak; long iv; const char *sv; const wchar_t *wv; double dv; int need; } F[] = {
         { "plain", 0, 0, 0, 0, 0, 5 }, { "%d", 1, 12345, 0, 0, 0, 5 }, { "%5d|", 1, -42, 0, 0, 0, 6 }, { "%-6x|", 1, 0xbeef, 0, 0, 0, 7 }, { "%s", 2, 0, "", 0, 0, 0 },
         { "%s", 2, 0, "abcde", 0, 0, 5 }, { "<%s>", 2, 0, "xyz", 0, 0, 5 }, { "%.2s", 2, 0, "abcdef", 0, 0, 2 }, { "%.3s", 6, 0, "abc", 0, 0, 3 }, { "%c%%", 1, 'Q', 0, 0, 0, 2 },
@@ -158,6 +159,7 @@ static void g_printf(void) {
         { "%lc", 4, 0x20ac, 0, 0, 0, 3 }, { "%lc", 4, 0x1f600, 0, 0, 0, 4 }, { "ab%lc", 4, 0x20ac, 0, 0, 0, 5 }, { "%f", 5, 0, 0, 0, 1.5, 8 }, { "%e", 5, 0, 0, 0, 12345.678, 12 },
         { "%g", 5, 0, 0, 0, 0.0001, 6 }, { "%.0f", 5, 0, 0, 0, 2.5, 1 }, { "%10.3f", 5, 0, 0, 0, -3.14159, 10 }, { "%s", 7, 0, 0, 0, 0, 0 }, { "%Lf|", 8, 0, 0, 0, 2.25, 9 },
         { "%a", 5, 0, 0, 0, 1.0, 6 }, { "%n", 1, 0, 0, 0, 0, 0 }, { "%40d", 1, 7, 0, 0, 0, 40 }, { "%.40d", 1, 7, 0, 0, 0, 40 }, { "%#o %+d", 1, 8, 0, 0, 0, 6 },
+        { "%.3ls", 9, 3, 0, L"abc", 0, 3 }, { "%.5ls", 9, 2, 0, L"é€", 0, 5 }, { "<%.4ls>", 9, 2, 0, L"é€", 0, 4 },
     };
     int nf = sizeof F / sizeof F[0];
     for (int e = 0; e < 4; e++) for (int fi = 0; fi < nf; fi++) {
@@ -165,16 +167,17 @@ static void g_printf(void) {
         size_t dms[10]; int nd = 0; dms[nd++] = 1; dms[nd++] = 2; if (need > 1) dms[nd++] = need - 1; dms[nd++] = need ? need : 1; dms[nd++] = need + 1; dms[nd++] = need + 2; dms[nd++] = need + 0x22; dms[nd++] = 0;
         for (int di = 0; di < nd; di++) for (int extra = 0; extra < 2; extra++) for (int dnull = 0; dnull < 2; dnull++) {
             size_t dmax = dms[di]; if (dnull && (di || extra)) continue;
-            char rel[80]; snprintf(rel, sizeof rel, "%s,%s", dnull ? "dnull" : dmax == 0 ? "dmax0" : (int)dmax > need ? "fits" : (int)dmax == need ? "need=dmax" : "need>dmax", F[fi].ak == 3 ? "ls" : F[fi].ak == 4 ? "lc" : F[fi].ak == 5 || F[fi].ak == 8 ? "float" : F[fi].ak == 6 ? "unterminated-arg" : F[fi].ak == 7 ? "null-arg" : !strcmp(F[fi].fmt, "%n") ? "n" : "int-str");
+            char rel[80]; snprintf(rel, sizeof rel, "%s,%s", dnull ? "dnull" : dmax == 0 ? "dmax0" : (int)dmax > need ? "fits" : (int)dmax == need ? "need=dmax" : "need>dmax", F[fi].ak == 3 ? "ls" : F[fi].ak == 4 ? "lc" : F[fi].ak == 5 || F[fi].ak == 8 ? "float" : F[fi].ak == 6 || F[fi].ak == 9 ? "unterminated-arg" : F[fi].ak == 7 ? "null-arg" : !strcmp(F[fi].fmt, "%n") ? "n" : "int-str");
             begin(names[e], rel, "printf %d %d %zu %d %d", e, fi, dmax, extra, dnull);
             char *d = dnull ? NULL : mkdest(dmax, 1, extra ? 3 : 0);
             const char *arg6 = F[fi].ak == 6 ? mksrc(1, F[fi].sv, 3) : NULL;
+            const wchar_t *arg9 = F[fi].ak == 9 ? mksrc(1, F[fi].wv, F[fi].iv * sizeof(wchar_t)) : NULL;
             int r = 0;
 #define DO(fnp, FMT) switch (F[fi].ak) { \
             case 0: CALL(r = fnp(d, dmax, FMT)); break; case 1: CALL(r = fnp(d, dmax, FMT, (int)F[fi].iv)); break; \
             case 2: CALL(r = fnp(d, dmax, FMT, F[fi].sv)); break; case 3: CALL(r = fnp(d, dmax, FMT, F[fi].wv)); break; \
             case 4: CALL(r = fnp(d, dmax, FMT, (wint_t)F[fi].iv)); break; case 5: CALL(r = fnp(d, dmax, FMT, F[fi].dv)); break; \
-            case 6: CALL(r = fnp(d, dmax, FMT, arg6)); break; case 7: CALL(r = fnp(d, dmax, FMT, (char *)NULL)); break; case 8: CALL(r = fnp(d, dmax, FMT, (long double)F[fi].dv)); break; }
+            case 6: CALL(r = fnp(d, dmax, FMT, arg6)); break; case 7: CALL(r = fnp(d, dmax, FMT, (char *)NULL)); break; case 8: CALL(r = fnp(d, dmax, FMT, (long double)F[fi].dv)); break; case 9: CALL(r = fnp(d, dmax, FMT, arg9)); break; }
 #define N_S(dd, nn, ...) ((spf)fp[e])(dd, nn, BOSU, __VA_ARGS__)
 #define N_V(dd, nn, ...) vn((vspf)fp[e], dd, nn, __VA_ARGS__)
             if (e & 1) { DO(N_V, F[fi].fmt) } else { DO(N_S, F[fi].fmt) }
@@ -199,7 +202,7 @@ static void g_wprintf(void) {
             char rel[80]; snprintf(rel, sizeof rel, "%s,%s", dnull ? "dnull" : dmax == 0 ? "dmax0" : (int)dmax > need ? "fits" : (int)dmax == need ? "need=dmax" : "need>dmax", F[fi].ak == 3 ? "ls" : F[fi].ak == 4 ? "lc" : F[fi].ak == 5 ? "float" : !wcscmp(F[fi].fmt, L"%n") ? "n" : "int-str");
             begin(names[e], rel, "wprintf %d %d %zu %d %d", e, fi, dmax, extra, dnull);
             wchar_t *d = dnull ? NULL : mkdest(dmax, 4, extra ? 3 : 0);
-            const char *arg6 = NULL; int r = 0;
+            const char *arg6 = NULL; const wchar_t *arg9 = NULL; int r = 0;
 #define W_S(dd, nn, ...) ((swpf)fp[e])(dd, nn, BOSU, __VA_ARGS__)
 #define W_V(dd, nn, ...) vw((vswpf)fp[e], dd, nn, __VA_ARGS__)
             if (e & 1) { DO(W_V, F[fi].fmt) } else { DO(W_S, F[fi].fmt) }
